@@ -4,7 +4,7 @@
    formulas those of spec/S_Weights.v and spec/S_Llh.v. *)
 From Coq Require Import Reals ZArith List Bool Lra Lia Permutation.
 From Sky Require Import Result PyList Num NumR G_weights M_Weights S_Llh S_Weights
-     P_WeightsBase P_Weights P_Stacked P_WeightsComp.
+     P_WeightsBase P_Weights P_Stacked P_WeightsComp P_WeightsSvc P_WeightsTable P_WeightsPerm.
 Import ListNotations.
 Open Scope R_scope.
 
@@ -202,6 +202,112 @@ Theorem C03_scale_value : forall (erfR : R -> R) (c opa ns : R) (J : nat)
 Proof. exact multi_eval_scale. Qed.
 Print Assumptions C03_scale_value.
 
+(* ---------------------------------------------------------------- guards are needed *)
+Theorem C03_fj_sum1_guard_needed : forall (erfR : R -> R),
+  exists a : list (list R), Rsum (map Rsum a) = 0 /\ Rsum (f_j (RNum erfR) a) <> 1.
+Proof. exact fj_sum1_guard_needed. Qed.
+Print Assumptions C03_fj_sum1_guard_needed.
+
+Theorem C03_fj_nonneg_guard_needed : forall (erfR : R -> R),
+  exists a : list (list R), 0 < Rsum (map Rsum a) /\ ~ Forall (fun f => 0 <= f) (f_j (RNum erfR) a).
+Proof. exact fj_nonneg_guard_needed. Qed.
+Print Assumptions C03_fj_nonneg_guard_needed.
+
+Theorem C03_weighted_mean_between_guard_needed : forall (erfR : R -> R),
+  exists a_k vals,
+    NoDup (map pair_of vals) /\ 0 < Rsum a_k
+    /\ (forall k, (k < length a_k)%nat -> 1 <= lookup vals k 0 <= 3)
+    /\ nth 0 (sw_ratio (RNum erfR) a_k 1 vals) 0 < 1.
+Proof. exact stacked_between_guard_needed. Qed.
+Print Assumptions C03_weighted_mean_between_guard_needed.
+
+(* ---------------------------------------------------------------- a_jk table, all inputs *)
+(* yields of the group's length or single values (numpy broadcasting); yield arrays beyond
+   the J datasets are ignored *)
+Theorem C03_a_jk_table_broadcast : forall (erfR : R -> R) (J : nat)
+    (groups groups' : list (list R * list (list R))),
+  norm_groups J groups = Some groups' -> a_jk_calc (RNum erfR) J groups = Ok (a_spec J groups').
+Proof. exact a_jk_calc_bcast. Qed.
+Print Assumptions C03_a_jk_table_broadcast.
+
+(* for EVERY input: a completely written table, or ValueError / IndexError; never the read
+   of an unwritten np.empty cell (Err AssertionError) *)
+Theorem C03_a_jk_table_total : forall (erfR : R -> R) (J : nat) (groups : list (list R * list (list R))),
+  (exists a, a_jk_calc (RNum erfR) J groups = Ok a)
+  \/ a_jk_calc (RNum erfR) J groups = Err ValueError \/ a_jk_calc (RNum erfR) J groups = Err IndexError.
+Proof. exact a_jk_calc_total. Qed.
+Print Assumptions C03_a_jk_table_total.
+
+(* ---------------------------------------------------------------- the service as an object *)
+(* create_src_recarray_list_list: cell (j, g) holds the record array the DetSigYield of
+   dataset j and group g built from the sources of group g *)
+Theorem C03_recarray_cells : forall (Rec : Type) (to_rec : Z -> Z -> Z -> Rec) (J G j g : nat),
+  (j < J)%nat -> (g < G)%nat ->
+  exists row, nth_error (create_recarrays to_rec J G) j = Some row
+              /\ nth_error row g = Some (to_rec (Z.of_nat j) (Z.of_nat g) (Z.of_nat g)).
+Proof. exact @create_recarrays_cell. Qed.
+Print Assumptions C03_recarray_cells.
+
+(* after any history of change_shg_mgr calls, calculate gives the table a fresh service
+   computes for the current configuration: weights W_g, cell (j, g) = arr[j, g] applied to the
+   record array arr[j][g] builds from group g's current sources *)
+Theorem C03_service_history_independent : forall (T : Type) (N : Num T) (Rec : Type) (J : nat)
+    (cfg0 : list (list T) * (Z -> Z -> Z -> Rec)) (changes : list (list (list T) * (Z -> Z -> Z -> Rec)))
+    (cfg : list (list T) * (Z -> Z -> Z -> Rec)) (yc : Z -> Z -> Rec -> list T),
+  svc_calculate N J (svc_after J (length (fst cfg)) cfg0 (changes ++ [cfg])) yc
+  = a_jk_calc N J
+      (combine (fst cfg)
+         (map (fun g => map (fun j => yc (Z.of_nat j) (Z.of_nat g)
+                                         (snd cfg (Z.of_nat j) (Z.of_nat g) (Z.of_nat g)))
+                            (seq 0 J))
+              (seq 0 (length (fst cfg))))).
+Proof. exact @svc_history_independent. Qed.
+Print Assumptions C03_service_history_independent.
+
+Theorem C03_multi_eval_service_fresh : forall (T : Type) (N : Num T) (Rec : Type) (opa ns : T) (J : nat)
+    (cfg0 : list (list T) * (Z -> Z -> Z -> Rec)) (changes : list (list (list T) * (Z -> Z -> Z -> Rec)))
+    (cfg : list (list T) * (Z -> Z -> Z -> Rec)) (yc : Z -> Z -> Rec -> list T) (ds : list (dset (T:=T))),
+  multi_eval_svc N opa ns J (svc_after J (length (fst cfg)) cfg0 (changes ++ [cfg])) yc ds
+  = multi_eval N opa ns J (svc_groups J cfg yc) ds.
+Proof. exact @multi_eval_svc_fresh. Qed.
+Print Assumptions C03_multi_eval_service_fresh.
+
+(* end to end: the value the long-lived objects return after any change_shg_mgr history is the
+   manual's sum over datasets on the CURRENT configuration *)
+Theorem C03_multi_eval_service_manual : forall (erfR : R -> R) (Rec : Type) (opa ns : R) (J : nat)
+    (cfg0 : list (list R) * (Z -> Z -> Z -> Rec)) (changes : list (list (list R) * (Z -> Z -> Z -> Rec)))
+    (cfg : list (list R) * (Z -> Z -> Z -> Rec)) (yc : Z -> Z -> Rec -> list R)
+    (ds : list (dset (T:=R))) (v : R),
+  multi_eval_svc (RNum erfR) opa ns J (svc_after J (length (fst cfg)) cfg0 (changes ++ [cfg])) yc ds = Ok v ->
+  exists a Rs,
+    a_jk_calc (RNum erfR) J (svc_groups J cfg yc) = Ok a /\ length ds = J
+    /\ (length ds <= length (f_j (RNum erfR) a))%nat
+    /\ Forall2 (fun d Rj => exists a_k, py_get a (d_idx d) = Ok a_k
+                  /\ stacked_ratio (RNum erfR) a_k (d_nsel d) (d_vals d) = Ok Rj) ds Rs
+    /\ v = Rsum (map (fun q => logLambda_manual (opa - 1) (d_N (fst (snd q))) (ns * fst q) (snd (snd q)))
+                     (combine (f_j (RNum erfR) a) (combine ds Rs))).
+Proof. intros erfR Rec. exact (@multi_eval_svc_manual erfR Rec). Qed.
+Print Assumptions C03_multi_eval_service_manual.
+
+(* ---------------------------------------------------------------- dataset permutation, service level *)
+(* q lists for every new position the old dataset; the yield arrays of every group and the
+   per-dataset data (N, n_selected, pair table) are permuted with q; dataset j uses row j *)
+Theorem C03_perm_datasets_service : forall (erfR : R -> R) (opa ns : R) (J : nat)
+    (groups : list (list R * list (list R))) (data : list (R * nat * list (nat * nat * R)))
+    (q : list nat) (d0 : R * nat * list (nat * nat * R)) (v v' : R),
+  wf_groups J groups -> length data = J -> Permutation q (seq 0 J) ->
+  let dsets := fun (l : list (R * nat * list (nat * nat * R))) =>
+    map (fun jx : nat * (R * nat * list (nat * nat * R)) =>
+           ((Z.of_nat (fst jx), fst (fst (snd jx)), snd (fst (snd jx)), snd (snd jx)) : dset (T:=R)))
+        (combine (seq 0 (length l)) l) in
+  multi_eval (RNum erfR) opa ns J groups (dsets data) = Ok v ->
+  multi_eval (RNum erfR) opa ns J
+             (map (fun g => (fst g, map (fun i => nth i (snd g) []) q)) groups)
+             (dsets (map (fun i => nth i data d0) q)) = Ok v' ->
+  v = v'.
+Proof. exact multi_eval_perm_datasets. Qed.
+Print Assumptions C03_perm_datasets_service.
+
 (* ---------------------------------------------------------------- non-vacuity *)
 (* a 2-dataset, 3-source, 2-group configuration with a zero entry meets every
    hypothesis used above; its slices are [0,2) and [2,3) *)
@@ -227,3 +333,13 @@ Proof.
     + apply perm_skip. apply perm_swap.
     + apply perm_swap.
 Qed.
+
+Example C03_nonvacuous_broadcast :
+  norm_groups 2 [([1; 2], [[5]; [1; 2]; [9; 9; 9]]); ([3], [[4]; [2]])]
+  = Some [([1; 2], [[5; 5]; [1; 2]]); ([3], [[4]; [2]])]
+  /\ norm_groups 2 [([1; 2], [[5; 6; 7]; [1; 2]])] = None.
+Proof. split; reflexivity. Qed.
+
+Example C03_nonvacuous_perm_service :
+  Permutation [1; 0]%nat (seq 0 2) /\ wf_groups 2 [([1; 2], [[1; 2]; [1 / 2; 0]]); ([3], [[4]; [2]])].
+Proof. split; [apply perm_swap|repeat constructor]. Qed.
